@@ -194,6 +194,25 @@ EXTRA3 = {
 for k, v in EXTRA3.items():
     C[k]['text'] += v
 
+DIRTY = ' The judged request is also sent after the provider served seven other replies (login success / failure pages, redirect, logout page, SOAP reply, metadata, SSO error page) for a victim session on connections that failed at the first byte / after 200 bytes.'
+EXTRA4 = {
+ 'C01': ' Hidden-state pass also runs (replies on failing connections, callback(k) among them) ; callback(any).',
+ 'C02': DIRTY,
+ 'C03': DIRTY + ' (every configuration x user shape, both consumer-URL forms.)',
+ 'C04': DIRTY + ' Callbacks are also made with a request context that is cancelled / past its deadline when the handler starts; whatever signature a reply carries - also a non-Success redirect - has to verify.',
+ 'C07': DIRTY,
+ 'C08': ' Every validity class x 5 ACS shapes x persist ok / error / context error with the request context cancelled or past its deadline when the handler starts: still exactly one outcome, never an empty reply.',
+ 'C11': DIRTY + ' Configuration dimensions include sibling providers and requests whose context already carries an issuer or proxy headers; providers built with integrator middleware (sets its own issuer, rewrites the host, both, pass-through) x issuer modes x hosts: metadata entityID = Issuer of an SSO error reply, a logout response, a callback reply and an attribute-query reply, and the advertised SSO location accepts.',
+ 'C12': DIRTY,
+ 'C13': DIRTY + ' The service-provider lookup also fails because the client went away (context cancelled during the call).',
+ 'C15': ' Every body is also served after replies on failing connections (all configurations), six pairs run under the scheduler after such replies.',
+ 'C16': ' End-to-end histories: the same entity ID was known with another list before (re-registered / updated in place) or is known with another list in another tenant.',
+ 'C18': ' Every emission (each field x three symbols) is produced again after replies on failing connections.',
+ 'C19': ' B5: requests that reach the handler with an issuer (or look-alike values) already in their context: the issuer in effect is the configured / derived one (4 issuer modes x 2 hosts).',
+}
+for k, v in EXTRA4.items():
+    C[k]['text'] += v
+
 NOT_YET = {i: 'check not built yet in this revision (planned: see DESIGN.md §5 %s); not claimed until its machinery exists' % i for i in ids}
 
 def main():
